@@ -179,7 +179,7 @@ pub fn repair(s: &str, operations: &[Operation], use_graphemes: bool) -> (res: V
     let cs = CS::new(s, use_graphemes);
     let chars: Vec<Character> = cs.vt_chars_vec();
     if chars.len() != operations.len() {
-        return Err(vt_anyhow());
+        return Err({ let _vt_fmt_args = (&(operations.len()), &(chars.len()),); vt_anyhow() });
     };
 
     let mut output = String::new();
